@@ -110,6 +110,7 @@ type Explorer struct {
 	implCache       map[implKey]bool
 	truncated       bool
 	buildMu         sync.Mutex
+	forkSites       map[string]int64
 
 	queries, qsat, qunsat, qunknown, qcache int64
 	solverTime                              time.Duration
@@ -143,6 +144,15 @@ func (ex *Explorer) push(p []Decision) {
 	ex.work = append(ex.work, p)
 	ex.mu.Unlock()
 	ex.cond.Signal()
+}
+
+func (ex *Explorer) noteForkSite(site string, n int) {
+	ex.mu.Lock()
+	if ex.forkSites == nil {
+		ex.forkSites = map[string]int64{}
+	}
+	ex.forkSites[site] += int64(n)
+	ex.mu.Unlock()
 }
 
 func (ex *Explorer) noteUnknownBranch() {
